@@ -149,6 +149,12 @@ def _globals_inventory(ctx):
                 is_mut = name in allmut and name in env
                 if is_mut and how == 'augmented assignment' and tgt.id == name:
                     is_mut = False     # would be a local rebinding (UnboundLocalError), not a mutation
+                if is_mut and how == '[...] =':
+                    # an item store into a module-level dict is the memo idiom:
+                    # whether it changes results depends on the key, not decided here
+                    ctx.undecided('GLOBALS', f"{fi.qualname}: `{tgt.id}{how}` on module-level `{name}`",
+                                  "item store into a module-level mapping (memo / registry idiom): harmless iff keyed by the complete input")
+                    continue
                 ctx.check(not is_mut, 'GLOBALS',
                           f"{fi.qualname}: `{tgt.id}{how}` on module-level `{name}`",
                           'not a mutable module-level container',
@@ -206,12 +212,18 @@ def _class_writes(ctx):
             seen.add(key)
             if key in ALLOWED_CLASS_WRITES:
                 ctx.ok('GLOBALS', f"{fi.qualname} writes {base}.{tgt.attr}", ALLOWED_CLASS_WRITES[key])
-            else:
+            elif isinstance(n, ast.Subscript) or (isinstance(n, ast.Call) and n.func.attr in ('setdefault', 'update')):
+                # a new class-level mapping that is filled by key: memo / registry idiom
+                ctx.undecided('GLOBALS', f"{fi.qualname} writes {base}.{tgt.attr}",
+                              "new class-level mapping filled by key (memo idiom): harmless iff keyed by the complete input")
+            elif tgt.attr in ('default_ns', 'default_ew') or tgt.attr.startswith(('_ERR', '_UNDEF', '_LEGAL')):
                 ctx.violation('GLOBALS', f"{fi.qualname} writes {base}.{tgt.attr}",
-                              f"`{norm(enclosing_stmt(n))[:80]}` writes process-wide class state that "
-                              f"is not in the confirmed inventory",
-                              key=f"GLOBALS|{fi.qualname}|{base}.{tgt.attr}|classwrite",
+                              f"`{norm(enclosing_stmt(n))[:80]}` rewrites a process-wide default / placeholder that every "
+                              f"later parse reads", key=f"GLOBALS|{fi.qualname}|{base}.{tgt.attr}|classwrite",
                               where=common.loc(fi, n))
+            else:
+                ctx.undecided('GLOBALS', f"{fi.qualname} writes {base}.{tgt.attr}",
+                              "process-wide class state that is not in the confirmed inventory; whether parse results read it is not decided")
     ctx.floor('class-level writers found', len(seen), 3)
     # the counter is only read by the i-sort
     readers = []
